@@ -714,9 +714,9 @@ func (w *relayWorld) payload() ([]byte, string) {
 	switch w.rng.Intn(10) {
 	case 0, 1, 2, 3, 4:
 		plen = w.rng.Intn(12)
-	case 5, 6:
+	case 5:
 		plen = 32 + w.rng.Intn(200)
-	case 7:
+	case 7, 6:
 		plen = verifsim.Pick(w.rng, []int{1500, 1543, 1544, 1545, 1560, 1564, 1568, 1572, 1590, 1596, 1599, 1600, 1601, 1604, 2000})
 	case 8:
 		plen = verifsim.Pick(w.rng, []int{3, 4, 5, 7, 8, 9, 15, 16, 17})
@@ -920,6 +920,157 @@ func (w *relayWorld) portFree(p int) bool {
 	return true
 }
 
+func (w *relayWorld) bindingsOf(ci int) []*allocation.ChannelBind {
+	am := w.srv.allocationManagers[0]
+	a := am.GetAllocation(&allocation.FiveTuple{SrcAddr: w.clients[ci], DstAddr: w.srvConn.LocalAddr(), Protocol: allocation.UDP})
+	if a == nil {
+		return nil
+	}
+	return a.ListChannelBindings()
+}
+
+// probeBurst exercises every authorisation of one client in both directions: the peers it has (or had)
+// permissions and bindings for, the same IPs on another port, and every channel number in the pool.
+func (w *relayWorld) probeBurst(ci int) {
+	am := w.srv.allocationManagers[0]
+	a := am.GetAllocation(&allocation.FiveTuple{SrcAddr: w.clients[ci], DstAddr: w.srvConn.LocalAddr(), Protocol: allocation.UDP})
+	if a == nil {
+		return
+	}
+	relay, _ := a.RelayAddr.(*net.UDPAddr)
+	k := 0
+	for _, p := range w.peers {
+		if w.rng.Chance(55) {
+			continue
+		}
+		k++
+		pp := peerSpec{addr: p}
+		w.evSend(ci, &pp, true)
+		if relay != nil {
+			w.evPeer(relay.Port, relay.IP.To4() == nil, p)
+		}
+	}
+	for n := 0x4000; n < 0x4004; n++ {
+		if w.rng.Chance(50) {
+			w.evChanData(ci, n)
+		}
+	}
+}
+
+func (w *relayWorld) timeouts() (at, pt, ct time.Duration) {
+	at, pt, ct = w.cfg.allocLifetime, w.cfg.permTimeout, w.cfg.chanTimeout
+	if at == 0 {
+		at = 10 * time.Minute
+	}
+	if pt == 0 {
+		pt = 5 * time.Minute
+	}
+	if ct == 0 {
+		ct = 10 * time.Minute
+	}
+	return
+}
+
+// template plays one of the named scenarios of DESIGN.md Appendix C before the random part of a history.
+func (w *relayWorld) template(k int, ports []int) {
+	rng := w.rng
+	ok := func(ci int) credSpec { u := []int{1, 1, 2, 1}[ci]; return credSpec{mi: u*10 + 1, intact: true, nonce: 1, user: u, realm: 1} }
+	eps := func() time.Duration { return time.Duration(1001+2*rng.Intn(300000)) * time.Nanosecond }
+	at, pt, ct := w.timeouts()
+	ci := rng.Intn(3)
+	p := peerSpec{addr: w.peers[rng.Intn(3)]}
+	num := 0x4000 + rng.Intn(4)
+	alloc := func(c int, lt attrSpec, port int) {
+		w.evAllocate(c, w.newTid(), ok(c), attrSpec{2, 17}, lt, attrSpec{}, false, port, false)
+	}
+	w.stats[fmt.Sprintf("template-%d", k)]++
+	switch k {
+	case 0: // ChannelBind refresh: which timeout does the permission get?
+		alloc(ci, attrSpec{}, ports[0])
+		w.evChannelBind(ci, w.newTid(), ok(ci), attrSpec{2, num}, &p)
+		w.evTick(time.Duration(1+rng.Intn(900)) * time.Millisecond)
+		w.evChannelBind(ci, w.newTid(), ok(ci), attrSpec{2, num}, &p)
+		lo, hi := pt, ct
+		if hi < lo {
+			lo, hi = hi, lo
+		}
+		if lo+eps() < at {
+			w.evTick(lo + eps())
+			w.probeBurst(ci)
+		}
+	case 1: // CreatePermission refresh restarts the full timeout
+		alloc(ci, attrSpec{}, ports[0])
+		w.evCreatePerm(ci, w.newTid(), ok(ci), []peerSpec{p})
+		w.evTick(pt / 2)
+		w.evCreatePerm(ci, w.newTid(), ok(ci), []peerSpec{p})
+		w.evTick(pt/2 + eps())
+		w.probeBurst(ci)
+		w.evTick(pt/2 - 2*eps())
+		w.probeBurst(ci)
+		w.evTick(3 * eps())
+		w.probeBurst(ci)
+	case 2: // Allocate with an explicit LIFETIME: timer armed == reported
+		l := verifsim.Pick(rng, []int{1, 2, 3, 5, 7, 30, 599, 3599})
+		alloc(ci, attrSpec{2, l}, ports[1])
+		w.evCreatePerm(ci, w.newTid(), ok(ci), []peerSpec{p})
+		w.evTick(time.Duration(l)*time.Second - eps())
+		w.probeBurst(ci)
+		w.evTick(2 * eps())
+		w.probeBurst(ci)
+		w.evRefresh(ci, w.newTid(), ok(ci), attrSpec{}, attrSpec{})
+	case 3: // Refresh re-arms to the reported value
+		alloc(ci, attrSpec{}, ports[2])
+		w.evTick(time.Duration(1+rng.Intn(2000)) * time.Millisecond)
+		l := verifsim.Pick(rng, []int{1, 2, 3, 5, 7, 30, 3599, 3600})
+		w.evRefresh(ci, w.newTid(), ok(ci), attrSpec{2, l}, attrSpec{})
+		d := time.Duration(l) * time.Second
+		if l >= 3600 {
+			d = at
+		}
+		w.evTick(d - eps())
+		w.evBinding(ci, w.newTid())
+		w.evSend(ci, &p, true)
+		w.evTick(2 * eps())
+		w.evSend(ci, &p, true)
+		w.evRefresh(ci, w.newTid(), ok(ci), attrSpec{2, 5}, attrSpec{})
+	case 4: // two clients reusing each other's numbers, peers and ids
+		c2 := (ci + 1) % 3
+		alloc(ci, attrSpec{}, ports[0])
+		alloc(c2, attrSpec{}, ports[1])
+		q := peerSpec{addr: w.peers[(rng.Intn(3)+1)%3]}
+		w.evChannelBind(ci, w.newTid(), ok(ci), attrSpec{2, num}, &p)
+		w.evChannelBind(c2, w.newTid(), ok(c2), attrSpec{2, num}, &q)
+		w.evCreatePerm(c2, w.newTid(), ok(c2), []peerSpec{p})
+		w.probeBurst(ci)
+		w.probeBurst(c2)
+		w.evRefresh(ci, w.newTid(), ok(c2), attrSpec{2, 0}, attrSpec{}) // other user's credentials on this 5-tuple
+		w.evRefresh(ci, w.newTid(), ok(ci), attrSpec{2, 0}, attrSpec{})
+		w.probeBurst(c2)
+	case 5: // payload sizes around the relay buffer and the padding boundaries, both directions
+		alloc(ci, attrSpec{}, ports[3])
+		w.evChannelBind(ci, w.newTid(), ok(ci), attrSpec{2, num}, &p)
+		q := peerSpec{addr: w.peers[4]}
+		w.evCreatePerm(ci, w.newTid(), ok(ci), []peerSpec{q})
+		for range 6 {
+			w.evPeer(ports[3], false, verifsim.Pick(rng, []*net.UDPAddr{p.addr, q.addr}))
+			w.evChanData(ci, num)
+			w.evSend(ci, &q, true)
+		}
+	case 6: // retransmitted and conflicting Allocate, expiry, re-allocation on the same relay port
+		l := verifsim.Pick(rng, []int{2, 3, 5})
+		tid := w.newTid()
+		w.evAllocate(ci, tid, ok(ci), attrSpec{2, 17}, attrSpec{2, l}, attrSpec{}, false, ports[0], false)
+		w.evChannelBind(ci, w.newTid(), ok(ci), attrSpec{2, num}, &p)
+		w.evAllocate(ci, tid, ok(ci), attrSpec{2, 17}, attrSpec{2, l}, attrSpec{}, false, ports[1], false)
+		w.evAllocate(ci, w.newTid(), ok(ci), attrSpec{2, 17}, attrSpec{2, l}, attrSpec{}, false, ports[1], false)
+		w.evTick(time.Duration(l)*time.Second + eps())
+		c2 := (ci + 1) % 3
+		alloc(c2, attrSpec{}, ports[0]) // same relay port, other client: must start empty
+		w.probeBurst(c2)
+		w.evPeer(ports[0], false, p.addr)
+	}
+}
+
 func (w *relayWorld) isLive(ci int) bool {
 	am := w.srv.allocationManagers[0]
 	return am.GetAllocation(&allocation.FiveTuple{SrcAddr: w.clients[ci], DstAddr: w.srvConn.LocalAddr(), Protocol: allocation.UDP}) != nil
@@ -1000,6 +1151,9 @@ func runRelayHistory(t *testing.T, rng *verifsim.RNG, prop string, nEvents int) 
 		w.evTick(time.Duration(1001+2*rng.Intn(1000)) * time.Nanosecond)
 		w.freshNonce()
 		ports := []int{49152, 49153, 49154, 49155}
+		if rng.Chance(40) {
+			w.template(rng.Intn(7), ports)
+		}
 		for i := 0; i < nEvents; i++ {
 			ci := rng.Intn(len(w.clients))
 			if rng.Chance(60) {
@@ -1096,6 +1250,19 @@ func runRelayHistory(t *testing.T, rng *verifsim.RNG, prop string, nEvents int) 
 					p := w.genPeer()
 					peer = &p
 				}
+				// often repeat (refresh) an existing binding of this client, or collide with one
+				if cbs := w.bindingsOf(ci); len(cbs) > 0 && rng.Chance(45) {
+					cb := verifsim.Pick(rng, cbs)
+					u, _ := cb.Peer.(*net.UDPAddr)
+					switch rng.Intn(5) {
+					case 0: // same number, other peer
+						num = attrSpec{2, int(cb.Number)}
+					case 1: // same peer, other number
+						peer = &peerSpec{addr: u}
+					default:
+						num, peer = attrSpec{2, int(cb.Number)}, &peerSpec{addr: u}
+					}
+				}
 				w.evChannelBind(ci, w.newTid(), w.genCred(b, ci), num, peer)
 			case "send":
 				var peer *peerSpec
@@ -1115,6 +1282,10 @@ func runRelayHistory(t *testing.T, rng *verifsim.RNG, prop string, nEvents int) 
 				w.evPeer(port, v6, verifsim.Pick(rng, w.peers))
 			case "tick":
 				w.evTick(w.genTick())
+				if live := w.liveClients(); len(live) > 0 && rng.Chance(60) {
+					w.probeBurst(verifsim.Pick(rng, live))
+					i += 3
+				}
 			case "binding":
 				w.evBinding(ci, w.newTid())
 			case "relayerr":
@@ -1132,7 +1303,7 @@ func relayCampaign(t *testing.T, prop string) {
 	rng := verifsim.NewRNG(verifsim.Seed()*31 + uint64(len(prop)) + uint64(prop[1])*7 + uint64(prop[2]))
 	col := verifsim.NewCollector(prop, prop+"Check")
 	col.PerFile = 25
-	nh, ne := 150, 28
+	nh, ne := 300, 30
 	if verifsim.Thorough() {
 		nh, ne = 2500, 40
 	}
